@@ -34,6 +34,8 @@ static std::weak_ptr<TcpConnection> g_weak;
 static int g_sv[2] = {-1, -1};
 static bool g_peerOpen = true, g_peerEof = false, g_destroyedSeen = false;
 static std::string g_peerGot;
+static std::string g_peerDelta;          // received since the last `st` line (oracle-only `# peer +<hex>`)
+static const char* g_inHook = NULL;      // the callback whose scripted operation is being performed
 static uint64_t g_peerHash = 14695981039346656037ULL;
 static size_t g_peerLen = 0;
 static size_t g_retrieveMax = static_cast<size_t>(1) << 40;
@@ -53,6 +55,7 @@ static void drainPeer(int) {
     if (n > 0) {
       for (ssize_t i = 0; i < n; ++i) { g_peerHash ^= static_cast<unsigned char>(buf[i]); g_peerHash *= 1099511628211ULL; }
       g_peerLen += static_cast<size_t>(n);
+      g_peerDelta.append(buf, static_cast<size_t>(n));
     } else if (n == 0) { g_peerEof = true; break; }
     else break;
   }
@@ -65,7 +68,9 @@ static void runHook(const char* cb) {
     if (g_hooks[i].cb == cb) {
       Hook h = g_hooks[i];
       g_hooks.erase(g_hooks.begin() + static_cast<long>(i));
+      g_inHook = cb;
       doAct(h.act, 0);
+      g_inHook = NULL;
       return;
     }
   }
@@ -99,6 +104,14 @@ static void doAct(const std::vector<std::string>& w, size_t i) {
   TcpConnectionPtr c = g_weak.lock();
   if (!c) return;
   const std::string& a = w[i];
+  {
+    // oracle-only: which operation, from where, and what connected() said when it was made
+    std::string l = "# act ";
+    l += g_inHook ? (std::string("hook:") + g_inHook) : (g_loop->isInLoopThread() ? "L" : "F");
+    l += c->connected() ? " 1" : " 0";
+    for (size_t k = i; k < w.size(); ++k) { l += " "; l += w[k]; }
+    emitLine(l);
+  }
   if (a == "send") {
     std::string d; parseBytes(w[i + 1], &d);
     std::string ovl = w.size() > i + 2 ? w[i + 2] : "piece";
@@ -134,6 +147,16 @@ extern "C" void __assert_fail(const char* assertion, const char* file, unsigned 
 
 static void stLine() {
   drainPeer(0);
+  if (!g_peerDelta.empty()) {
+    static const char* hx = "0123456789abcdef";
+    std::string l = "# peer +";
+    for (size_t i = 0; i < g_peerDelta.size(); ++i) { unsigned char ch = static_cast<unsigned char>(g_peerDelta[i]); l += hx[ch >> 4]; l += hx[ch & 15]; }
+    emitLine(l);
+    g_peerDelta.clear();
+  }
+  {
+    char it[64]; snprintf(it, sizeof it, "# it %lld", static_cast<long long>(g_loop->iteration())); emitLine(it);
+  }
   TcpConnectionPtr c = g_weak.lock();
   if (!c && !g_destroyedSeen) { g_destroyedSeen = true; emitLine("destroyed"); }
   char line[256];
@@ -198,6 +221,9 @@ static bool interp() {
       if (g_peerOpen) real_shutdown(g_sv[1], SHUT_WR);
     } else if (op == "peerClose") {
       if (g_peerOpen) { drainPeer(0); VI_REAL(int, close, int); real_close(g_sv[1]); g_peerOpen = false; }
+    } else if (op == "script" && w.size() > 1 && w[1] == "poll") {
+      // script poll EINTR…: the next poll/epoll_wait calls are interrupted (C11)
+      for (size_t i = 2; i < w.size(); ++i) if (w[i] == "EINTR") ++vi::pollEintr();
     } else if (op == "script") {
       if (vi::scripts().count(g_sv[0]) == 0) { stLine(); flushStep(); continue; }
       std::deque<vi::Res>& q = (w[1] == "write") ? vi::scripts()[g_sv[0]].writes : vi::scripts()[g_sv[0]].readvs;
